@@ -85,7 +85,28 @@ def battery():
         t2 = Tag("div", "x", class_=HTML("h")).add_class('k"')
         return dg(str(t), str(t2), HTMLDocument(t).render()["html"], t.get_html_string(1, "\r\n"))
 
-    return [("escapes", escapes), ("many_deps", many_deps), ("dup_head_content", dup_head_content), ("text_document", text_document),
+    def version_spelling_a():
+        d = dep("widget", "2.0", stylesheet={"href": "w.css"})
+        r = HTMLDocument(tags.div("a", d)).render()
+        return dg(r["html"], str(d), d.as_dict(), deps_sig(r["dependencies"]))
+
+    def version_spelling_b():
+        # same name, same version spelled differently, different files
+        d = HTMLDependency("widget", "2.0.0", source={"subdir": "lib/other"}, script=[{"src": "other.js"}, {"src": "b.js"}])
+        r = HTMLDocument(tags.div("b", d)).render()
+        d.script.append({"src": "later.js"})
+        r2 = HTMLDocument(tags.div("b", d)).render()
+        return dg(r["html"], r2["html"], str(d), d.as_dict())
+
+    def text_document_b():
+        ser = dep("solo").serialize_to_script_json().get_html_string()
+        doc = HTMLTextDocument("<head>HERE</head>" + ser, deps_replace_pattern="HERE")
+        r = doc.render()
+        return dg(r["html"], deps_sig(r["dependencies"]), css(opacity=1), css(opacity=1.0), css(z=True),
+                  str(TagList(1, 1.0, True, 0, -0.0, 0.0)))
+
+    return [("escapes", escapes), ("version_spelling_a", version_spelling_a), ("version_spelling_b", version_spelling_b),
+            ("text_document_b", text_document_b), ("many_deps", many_deps), ("dup_head_content", dup_head_content), ("text_document", text_document),
             ("jsx_component", jsx_component), ("attr_merges", attr_merges), ("resolution", resolution)]
 
 
@@ -102,6 +123,11 @@ HC_PAYLOADS = [
     ("text", lambda t, H: ["a"]),
     ("text-escaped", lambda t, H: ["<title>a</title>"]),
     ("empty", lambda t, H: []),
+    ("title-a-trailing-newline", lambda t, H: [H("<title>a</title>\n")]),
+    ("title-a-leading-space", lambda t, H: [H(" <title>a</title>")]),
+    ("text-leading-space", lambda t, H: [" a"]),
+    ("space-only", lambda t, H: [" "]),
+    ("nbsp-only", lambda t, H: ["\u00a0"]),
 ]
 
 
@@ -127,8 +153,8 @@ def head_content_facts():
         if n_deps != (1 if same else 2):
             problems.append(f"document with payloads {k1}, {k2} reports {n_deps} head_content dependencies")
         lines1, lines2 = rendered[k1].split("\n"), rendered[k2].split("\n")
-        for L in sorted({x for x in lines1 + lines2 if x.startswith("<")}):
-            expected = lines1.count(L) + (0 if same else lines2.count(L))
+        for L in sorted({x.strip() for x in lines1 + lines2 if x.strip().startswith("<")}):
+            expected = rendered[k1].count(L) + (0 if same else rendered[k2].count(L))
             if head.count(L) != expected:
                 problems.append(f"payloads {k1}, {k2}: line {L!r} emitted {head.count(L)} times, "
                                 f"expected {expected} (equal content once, different content never merged)")
